@@ -59,12 +59,18 @@ def ob_search_order(ctx, res):
                     return list(reversed(recv))
                 if m == "is_empty" and not args:
                     return not recv
+                if m == "for_each" and len(args) == 1:
+                    for x_ in recv:
+                        holder[0].apply_closure(args[0], [x_])
+                    return None
             raise NotPure("method %s" % m)
+        holder = [None]
         me = {"__ref": True, "remaining_childblocks": {"__ref": True, "what": "queue", "q": ["R"]}, "file": "FILE", "endianness": "ENDIAN", "chrom_ix": "C", "start": "S", "end": "E"}
         out, err = [], None
         try:
             for _ in range(len(TREE) + 2):
-                got = Interp(ctx.ast, R, extern={"None": None, "method": method}, max_steps=20000).call(fn, [me])
+                holder[0] = Interp(ctx.ast, R, extern={"None": None, "method": method}, max_steps=20000)
+                got = holder[0].call(fn, [me])
                 if got is None:
                     break
                 if got[0] == "some" and isinstance(got[1], tuple) and got[1][0] == "err":
@@ -419,7 +425,7 @@ def ob_interval_siblings(ctx, res):
                 res.ok(fa, "%s::%s and %s: same index searched with the same query, iterator built from the same blocks and range (spelled differently)" % (ty, a, b))
     # the query reaches search_cir_tree and the iterator unchanged
     for file, ty in ((RW, "BigWigRead"), (RB, "BigBedRead")):
-        fn = ctx.ast.fn(file, "get_interval", impl=ty)
+        fn = ctx.ast.fn(file, "get_interval", impl=ty, inline=True, keep=("search_cir_tree", "search_cir_tree_inner"))
         sc = [c for c in walk_no_nested_fn(fn.body) if c.k == "call" and up(c["func"]) == "search_cir_tree"]
         if len(sc) != 1 or [origin(fn, x) for x in sc[0]["args"][3:]] != ["p1", "p2", "p3"] or "full_data_cir_tree()" not in origin(fn, sc[0]["args"][2]):
             res.fail("intervalSiblings/%s/search" % ty, fn, "get_interval must search the full-data index with (chrom_name, start, end)")
@@ -525,39 +531,116 @@ def ob_values_array(ctx, res):
     if len(gb) != 1 or [origin(fn, a) for a in gb[0]["args"][4:]] != ["p2", "p3"]:
         res.fail("valuesArray/decode", fn, "blocks must be decoded with the same (start, end)")
         return
-    t = up(fn.body)
-    if "let block_value_start = (block_value.start - start) as usize; let block_value_end = (block_value.end - start) as usize;" not in t or \
-            "for i in &mut values[block_value_start..block_value_end] {*i = block_value.value}" not in t.replace(";}", "}"):
-        res.fail("valuesArray/fill", fn, "slots clipped.start-start .. clipped.end-start must receive the value")
+    # every decoded (clipped) value fills slots [v.start - start, v.end - start): `for i in &mut values[a..b] { *i = v.value }` or `values[a..b].fill(v.value)`
+    from ..rules import equiv as EQ
+    from ..astq import upn, _tnorm
+    arr = up(vec[0].parent["pat"]).replace("mut ", "").split(":")[0].strip() if vec[0].parent is not None and vec[0].parent.k == "let" else "values"
+    sites = []
+    for n in walk_no_nested_fn(fn.body):
+        if n.k == "for" and strip(n["iter"]).k in ("ref", "index"):
+            ix = strip(n["iter"])
+            while ix.k == "ref":
+                ix = strip(ix["e"])
+            if ix.k == "index" and up(strip(ix["base"])) == arr:
+                asg = [x for x in walk_no_nested_fn(n["body"]) if x.k == "assign"]
+                if len(asg) == 1 and up(strip(asg[0]["l"])).lstrip("*") == up(n["pat"]).replace("mut ", ""):
+                    sites.append((n, ix["index"], asg[0]["r"]))
+        if n.k == "mcall" and n["method"] == "fill" and len(n["args"]) == 1 and strip(n["recv"]).k == "index" and up(strip(strip(n["recv"])["base"])) == arr:
+            sites.append((n, strip(n["recv"])["index"], n["args"][0]))
+    if len(sites) != 1:
+        res.undecided("valuesArray/fill", fn, "expected one place filling a slice of the per-base array per decoded value, found %d" % len(sites))
+        return
+    site, rng, val = sites[0]
+    rng = _tnorm(fn, strip(rng))
+    if rng.k != "range" or rng.get("from") is None or rng.get("to") is None:
+        res.undecided("valuesArray/fill", site, "the filled slots are not given as a range `a..b`")
+        return
+    startn = fn.params[2][0]
+    roles = {"VS": r"\w+\.start", "VE": r"\w+\.end", "S": re.escape(startn)}
+    pre = lambda e: e["S"] <= e["VS"] < e["VE"]
+    qa = EQ.equiv(None, rng["from"], roles, lambda e: e["VS"] - e["S"], domain=range(0, 4), pre=pre)
+    qb = EQ.equiv(None, rng["to"], roles, lambda e: e["VE"] - e["S"], domain=range(0, 4), pre=pre)
+    if qa[0] == "differs" or qb[0] == "differs":
+        q = qa if qa[0] == "differs" else qb
+        res.fail("valuesArray/fill", site, "slots clipped.start-start .. clipped.end-start must receive the value; `%s` gives %s, required %s, for %s" % (up(rng), q[2], q[3], q[1]))
+        return
+    if qa[0] == "unknown" or qb[0] == "unknown":
+        res.undecided("valuesArray/fill", site, "filled slot range not decided (%s)" % (qa[1] if qa[0] == "unknown" else qb[1]))
+    if not re.fullmatch(r"\w+\.value", upn(fn, val)):
+        res.fail("valuesArray/fill", site, "the slots must receive the decoded value; they receive `%s`" % upn(fn, val))
         return
     res.ok(fn, "values(): NaN array of end-start; every clipped value fills [v.start-start, v.end-start)")
 
 
 def ob_block_data(ctx, res):
-    """C10-F1 / C01-T1 (reader side)"""
+    """C10-F1 / C01-T1 (reader side): read_block_data evaluated with a mocked reader and decompressor for uncompressBufSize 0 / > 0"""
+    from ..rules.interp import Interp, NotPure
     fn = ctx.ast.fn(R, "read_block_data")
-    t = up(fn.body)
-    sk = list(calls(fn.body, method="seek"))
-    if len(sk) != 1 or origin(fn, sk[0]["args"][0]) != "Start(p2.offset)":
-        res.fail("blockData/seek", fn, "block must be read at SeekFrom::Start(block.offset)")
-        return
-    vec = [n for n in walk_no_nested_fn(fn.body) if n.k == "macro" and n["path"] == "vec" and "repeat" in n]
-    sizes = [origin(fn, v["repeat"]["len"]) for v in vec]
-    if "p2.size" not in sizes or "p0.header.uncompress_buf_size" not in sizes:
-        res.fail("blockData/sizes", fn, "raw buffer must be block.size bytes and the inflate buffer header.uncompress_buf_size bytes; got %s" % sizes)
-        return
-    iff = [n for n in walk_no_nested_fn(fn.body) if n.k == "if" and re.fullmatch(r"(\w+) > 0", up(strip(n["cond"])))]
-    if len(iff) != 1 or origin(fn, strip(iff[0]["cond"])["l"]) != "p0.header.uncompress_buf_size":
-        res.fail("blockData/when", fn, "blocks are inflated iff the header's uncompressBufSize > 0")
-        return
-    zd = list(calls(iff[0]["then"], method="zlib_decompress"))
-    if len(zd) != 1 or "truncate(" not in up(iff[0]["then"]):
-        res.fail("blockData/inflate", fn, "compressed blocks must be inflated with zlib_decompress and cut to the decompressed length")
-        return
-    if up(strip(iff[0]["else"])) not in ("{raw_data}",):
-        res.fail("blockData/raw", fn, "uncompressed blocks must be returned as read")
-        return
-    res.ok(fn, "read_block_data: block.size bytes at block.offset; inflate (zlib) into uncompressBufSize bytes iff that is > 0, cut to the inflated length")
+    for ubs in (0, 4096):
+        log = []
+
+        def method(m, recv, args, log=log):
+            if recv == "READ" and m == "seek" and len(args) == 1:
+                log.append(("seek", args[0]))
+                return ("some", 0)
+            if recv == "READ" and m == "read_exact" and len(args) == 1:
+                log.append(("read_exact", args[0]["len"] if isinstance(args[0], dict) else args[0]))
+                if isinstance(args[0], dict):
+                    args[0]["filled"] = True
+                return ("some", ())
+            if recv == "DECOMP" and m == "zlib_decompress" and len(args) == 2:
+                log.append(("inflate", args[0].get("tag") if isinstance(args[0], dict) else args[0], args[1].get("len") if isinstance(args[1], dict) else args[1]))
+                return ("some", "NBYTES")
+            if isinstance(recv, dict) and recv.get("tag") and m in ("truncate", "resize") and args:
+                recv["len"] = args[0]
+                return None
+            if m == "unwrap" and isinstance(recv, tuple) and recv and recv[0] == "some":
+                return recv[1]
+            raise NotPure("method %s" % m)
+
+        def call(pth, args):
+            if pth.endswith("Decompressor::new"):
+                return "DECOMP"
+            return NotImplemented
+        nbuf = [0]
+
+        def macro(n, args, nbuf=nbuf):
+            if n["path"] == "vec" and "repeat" in n:
+                ln = args[1]
+                nbuf[0] += 1
+                return {"__ref": True, "tag": "buf%d" % nbuf[0], "len": ln}
+            raise NotPure("macro " + n["path"])
+        info = {"__ref": True, "header": {"__ref": True, "uncompress_buf_size": ubs}}
+        blk = {"__ref": True, "offset": "OFF", "size": "SZ"}
+        itp = Interp(ctx.ast, R, extern={"None": None, "method": method, "call": call, "macro": macro})
+        cur_env = [{}]
+        _orig_block = itp.block
+
+        def _blk(b_, env_, depth_):
+            cur_env[0] = env_
+            return _orig_block(b_, env_, depth_)
+        itp.block = _blk
+        try:
+            got = itp.call(fn, [info, "READ", blk])
+        except NotPure as e:
+            res.undecided("blockData/not-evaluable", fn, "read_block_data is outside the fragment the rule evaluates (%s)" % e)
+            return
+        seeks = [e for e in log if e[0] == "seek"]
+        reads = [e for e in log if e[0] == "read_exact"]
+        infl = [e for e in log if e[0] == "inflate"]
+        if seeks != [("seek", ("variant", "Start", ["OFF"]))] or reads != [("read_exact", "SZ")] or log.index(seeks[0]) > log.index(reads[0]):
+            res.fail("blockData/seek", fn, "the block must be read as block.size bytes at SeekFrom::Start(block.offset); effects %s" % log)
+            return
+        ok_val = isinstance(got, tuple) and got[0] == "some" and isinstance(got[1], dict)
+        if ubs == 0:
+            if infl or not ok_val or got[1].get("tag") != "buf1" or got[1].get("len") != "SZ":
+                res.fail("blockData/raw", fn, "with uncompressBufSize 0 the block must be returned as read; effects %s, returns %s" % (log, got))
+                return
+        else:
+            if len(infl) != 1 or infl[0][1] != "buf1" or infl[0][2] != ubs or not ok_val or got[1].get("tag") == "buf1" or got[1].get("len") != "NBYTES":
+                res.fail("blockData/inflate", fn, "with uncompressBufSize > 0 the block must be inflated (zlib) into a buffer of that size and cut to the inflated length; effects %s, returns %s" % (log, got))
+                return
+    res.ok(fn, "read_block_data evaluated: block.size bytes at block.offset; inflated (zlib) into uncompressBufSize bytes iff that is > 0, cut to the inflated length; else returned as read")
 
 
 def _field_from_open(fn, lit):
